@@ -76,12 +76,62 @@ def cyclic_case(rng):
     return depsgen.Case(names, rules, ops), dict(L=L, pre=pre, cyc=cyc, sib=sib, closed_at=closed_at)
 
 
+def cycles_level(ctx, rng, viol):
+    """The REDO_CYCLES wire format (src/cycles.rs add/check through the hook, in-process) against the Lean model
+    Cycles.add/check: random initial values (unset, empty, id lists with repeats, stray colons) and operation
+    sequences over ids that share prefixes and digits (1, 10, 100, 11, 2, 21 …): the check answers must be equal and the
+    final values equal as sets of items (the order in which a hash set is written back is unspecified)."""
+    thorough = ctx["tier"] == "thorough"
+    n = 4000 if thorough else 600
+    pool = ["1", "10", "100", "101", "11", "2", "21", "12", "3", "30", "300", "7", "70", "77", "1000", "999", "9", "99"]
+    lines = []
+    for i in range(n):
+        r = rng.random()
+        if r < 0.15:
+            v = "!"
+        elif r < 0.22:
+            v = hx("")
+        else:
+            its = [rng.choice(pool) for _ in range(rng.randint(1, 12))]
+            if rng.random() < 0.1:
+                its.insert(rng.randrange(len(its) + 1), "")
+            v = hx(":".join(its))
+        ops = []
+        for _ in range(rng.randint(1, 14)):
+            f = rng.choice(pool) if rng.random() < 0.9 else str(rng.randint(1, 3000))
+            ops.append(("a" if rng.random() < 0.45 else "c") + hx(f))
+        lines.append("cycles %s %s" % (v, ",".join(ops)))
+    m = run_lines(MODEL, lines)
+    im = run_lines(RH, lines)
+    stats = dict(requests=n, checks=0, cyclic_answers=0, adds=sum(l.count(",a") + (1 if " a" in l else 0) for l in lines))
+    def canon(ans):
+        bits, fin = ans.split(" ")
+        items = None if fin == "!" else sorted(set(unhx(fin).decode().split(":")))
+        return bits, items
+    for l, a, b in zip(lines, m, im):
+        if "bad-op" in a or "bad-op" in b or "panic" in b or canon(a) != canon(b):
+            # failing-input search: the property-level meaning of a difference is a cycle that is not detected (or a
+            # false cycle): look for the first check whose answers differ
+            p = write_replay("C12", "cycles-corr", dict(kind="model-vs-impl", layer="Cycles", request=l, model=a, implementation=b,
+                                                        meaning="REDO_CYCLES add/check differ from the model: a lock held by an ancestor may go unnoticed (hang) or a free one be refused (false 208)"))
+            ba, bb = a.split(" ")[0], b.split(" ")[0]
+            viol.append(Violation("C12", p, "REDO_CYCLES bookkeeping differs from the model on %s: check answers %s (model) vs %s (implementation)" % (l, ba, bb), no_input=(ba == bb)))
+            break
+        bits = a.split(" ")[0]
+        if bits != "-":
+            stats["checks"] += len(bits); stats["cyclic_answers"] += bits.count("1")
+    return stats
+
+
 def run(ctx):
     rng = random.Random(ctx["seed"] * 17 + 12)
     viol = ctx.setdefault("violations", [])
     thorough = ctx["tier"] == "thorough"
     ncases = 150 if thorough else 24
     defects = deps_check.current_defects()
+    cyc_stats = cycles_level(ctx, random.Random(ctx["seed"] * 5 + 3), viol)
+    if viol:
+        return dict(evaluations=cyc_stats["requests"], distinct_nontrivial=0, rule="REDO_CYCLES level only (disagreement)", samples=[], distribution=dict(cycles=cyc_stats))
     made = [cyclic_case(rng) for _ in range(ncases)]
     cases = [m[0] for m in made]
     model, real = deps_check.run_batch(cases, defects)
@@ -222,4 +272,4 @@ def run(ctx):
                 pr.destroy()
     return dict(evaluations=stats["commands"] + stats["parallel_runs"], distinct_nontrivial=stats["cyclic_commands"],
                 rule="generated graphs with a cycle of length 1-4 behind an acyclic prefix of length 0-2 and 0-2 acyclic siblings; redo-ifchange from several entry targets, with a sibling first, redo of a cycle member, then the listings (all at -j1, compared with the model op by op); plus -j3 runs entering the cycle from one chain and from two branches under a 20 s bound; non-trivial = commands whose targets reach the cycle",
-                samples=samples, disagreements_checked=stats["commands"], traces_validated_against_impl=len(cases), distribution=stats, known_hit=known_hit)
+                samples=samples, disagreements_checked=stats["commands"], traces_validated_against_impl=len(cases), distribution=dict(histories=stats, redo_cycles=cyc_stats), known_hit=known_hit)
